@@ -442,7 +442,7 @@ theorem modinfo_parse (b : SecBuf) (hI : b.Inv) (as : List Modinfo.Attr)
       have := encodeModinfo_length_ge as
       rw [← hc, h2] at this
       exact List.eq_nil_of_length_eq_zero (by simpa using this)
-    simp [Modinfo.parse, h1, this, pure, Except.pure]
+    simp [ModTie.parse_eq, h1, this, pure, Except.pure]
   · have hsplit : a = [] ++ (List.replicate 0 0 ++ (Spec.encodeModinfo as ++ a.drop b.size.toNat)) := by
       rw [← hc, ← h3]; simp
     have := parseLoop_spec as [] (a.drop b.size.toNat) 0 b.size 0 [] (b.size.toNat + 2)
@@ -450,7 +450,7 @@ theorem modinfo_parse (b : SecBuf) (hI : b.Inv) (as : List Modinfo.Attr)
         have := encodeModinfo_length_ge as
         rw [← hc, hl] at this; omega)
     rw [← hsplit] at this
-    simp only [Modinfo.parse, hd, this, List.nil_append]
+    simp only [ModTie.parse_eq, hd, this, List.nil_append]
 
 /-- the reference reader inverts the reference encoder -/
 theorem spec_parse_encode (as : List (Bytes × Bytes)) (hok : ∀ a ∈ as, Spec.AttrOk a) :
